@@ -1,7 +1,7 @@
 #!/bin/bash
 # usage: verify_seed.sh Cxx X   -- confirms a seeded change in its scratch worktree /tmp/mut/Cxx and, if confirmed,
 # stores it as /verif/seeded/Cxx-X/{patch.diff,demo.rs,meta.json}
-id="$1"; x="$2"; wt=/tmp/mut/$id; o=$wt/out/$x
+id="$1"; x="$2"; root="${3:-/tmp/mut}"; y="${4:-$x}"; wt=$root/$id; o=$wt/out/$x
 export CARGO_NET_OFFLINE=true
 cd $wt || exit 2
 git checkout -q -- . ; rm -f tests/demo_*.rs
@@ -21,14 +21,14 @@ cargo test --offline $feat --test demo_$x >/tmp/vs_$id$x.mut 2>&1; mut=$?
 git checkout -q -- . ; rm -f tests/demo_$x.rs
 echo "$id-$x: demo on base rc=$base (want 0); suite with change rc=$suite passed=$npass serde-build=$bserde (want 0, 96, 0); demo with change rc=$mut (want !=0)"
 if [ $base -eq 0 ] && [ $suite -eq 0 ] && [ $mut -ne 0 ] && [ $bserde -eq 0 ]; then
-  d=/verif/seeded/$id-$x; mkdir -p $d; cp $o/patch.diff $o/demo.rs $d/
-  python3 - "$o/meta.json" "$d/meta.json" "$id" "$x" "$npass" <<'PY'
+  d=/verif/seeded/$id-$y; mkdir -p $d; cp $o/patch.diff $o/demo.rs $d/
+  python3 - "$o/meta.json" "$d/meta.json" "$id" "$y" "$npass" <<'PY'
 import json,sys
 src,dst,pid,x,npass=sys.argv[1:]
 try: m=json.load(open(src))
 except Exception: m={}
-out={"property":pid,"variant":x,"summary":m.get("summary",""),"needs":m.get("needs",""),"demo_cmd":m.get("demo_cmd",""),
- "confirmed_by":"tools/verify_seed.sh in the scratch worktree /tmp/mut/%s: demo passes on the unchanged tree; with the change the existing suite passes (%s tests incl. doctests) and the demo fails"%(pid,npass),
+out={"property":pid,"variant":x,"summary":m.get("summary",""),"needs":m.get("needs",""),"demo_cmd":m.get("demo_cmd",""),"estimated_random_hit_rate":m.get("estimated_random_hit_rate",""),
+ "confirmed_by":"tools/verify_seed.sh in the scratch worktree %s: demo passes on the unchanged tree; with the change the existing suite passes (%s tests incl. doctests) and the demo fails"%(pid,npass),
  "author":"independent sub-agent given only the property text","detected_by":[]}
 json.dump(out,open(dst,"w"),indent=1)
 PY
